@@ -26,6 +26,9 @@ def modelled : List String := [
   "babyjub.<decls>@babyjub.go",
   "babyjub.<decls>@eddsa.go",
   "babyjub.<decls>@helpers.go",
+  "ff.<asm>@element_mul_adx_amd64.s",
+  "ff.<asm>@element_mul_amd64.s",
+  "ff.<asm>@element_ops_amd64.s",
   "ff.<decls>@arith.go",
   "ff.<decls>@asm.go",
   "ff.<decls>@asm_noadx.go",
@@ -41,6 +44,6 @@ theorem source_pinned : modelled.all (same I3.Gen.fingerprints) = true := by dec
 theorem function_set_pinned : (["babyjub.", "ff.", "utils."] : List String).all (sameKeys I3.Gen.fingerprints) = true := by
   decide +kernel
 
-theorem modelled_nonempty : 25 = modelled.length := by decide
+theorem modelled_nonempty : 28 = modelled.length := by decide
 
 end I3.Props.C04
